@@ -12,6 +12,15 @@ theorem pres_shClW {s s' : St} {a : Act} (hI : Inv s) (h : step .repaired s a = 
   | fire t0 =>
     simp only [step] at h
     (repeat' (split at h)) <;> (try cases h) <;> (simp only [St.setPc, St.setObj]; (have i_shClW := hI.shClW; have i_wrA := hI.wrA; have i_shNil := hI.shNil; have i_refs := hI.refs; grind [wslot, knowsNil, PC.ref, Obj.fresh]))
+  | corrupt d =>
+    simp only [step] at h
+    (repeat' (split at h)) <;> (try cases h) <;> (simp only []; (have i_shClW := hI.shClW; have i_wrA := hI.wrA; have i_shNil := hI.shNil; have i_refs := hI.refs; grind [wslot, knowsNil, PC.ref, Obj.fresh]))
+  | block d =>
+    simp only [step] at h
+    (repeat' (split at h)) <;> (try cases h) <;> (simp only []; (have i_shClW := hI.shClW; have i_wrA := hI.wrA; have i_shNil := hI.shNil; have i_refs := hI.refs; grind [wslot, knowsNil, PC.ref, Obj.fresh]))
+  | repair d =>
+    simp only [step] at h
+    (repeat' (split at h)) <;> (try cases h) <;> (simp only []; (have i_shClW := hI.shClW; have i_wrA := hI.wrA; have i_shNil := hI.shNil; have i_refs := hI.refs; grind [wslot, knowsNil, PC.ref, Obj.fresh]))
   | run t0 =>
     simp only [step] at h
     split at h
